@@ -136,7 +136,8 @@ def _body(W, kind, idx):
         W.journal.append(('body', kind, idx, W.world, sid))
         rec = W.recorder
         beh = s['beh'] if s else 'ret'
-        if s and s.get('sync') and W.world == 'LIVE' and getattr(W, 'barrier', None) is not None:
+        if s and s.get('sync') and W.world == 'LIVE' and getattr(W, 'barrier', None) is not None and \
+                not getattr(W, 'no_barrier', False):
             # rendezvous: all workers are inside an intercepted body at the same time (timeout = inconclusive)
             try:
                 W.barrier.wait(0.5)
